@@ -767,10 +767,12 @@ impl<'a> Serialize for WrappedStore<'a, TextResource, AnnotationStore> {
         let mut seq = serializer.serialize_seq(Some(self.store.len()))?;
         for resource in self.store.iter() {
             if let Some(resource) = resource {
+                //(the map also holds an empty entry for every resource below the last one that was associated)
                 let found_substores = self
                     .parent
                     .resource_substore_map
-                    .get(resource.handle().expect("resource must have handle"));
+                    .get(resource.handle().expect("resource must have handle"))
+                    .filter(|substores| !substores.is_empty());
                 if (found_substores.is_none() && self.substore.is_none())
                     || (found_substores.is_some()
                         && self.substore.is_some()
@@ -793,10 +795,12 @@ impl<'a> Serialize for WrappedStore<'a, AnnotationDataSet, AnnotationStore> {
         let mut seq = serializer.serialize_seq(Some(self.store.len()))?;
         for dataset in self.store.iter() {
             if let Some(dataset) = dataset {
+                //(the map also holds an empty entry for every dataset below the last one that was associated)
                 let found_substores = self
                     .parent
                     .dataset_substore_map
-                    .get(dataset.handle().expect("dataset must have handle"));
+                    .get(dataset.handle().expect("dataset must have handle"))
+                    .filter(|substores| !substores.is_empty());
                 if (found_substores.is_none() && self.substore.is_none())
                     || (found_substores.is_some()
                         && self.substore.is_some()
